@@ -272,7 +272,7 @@ func TestC15Rollover(t *testing.T) {
 
 		n := c.Int("ops", 4, 120)
 		for i := 0; i < n; i++ {
-			switch c.Weighted("op", 0, 30, 12, 40, 8) {
+			switch c.Weighted("op", 0, 30, 12, 40, 8, 4) {
 			case 1:
 				seal(c.Pick("seal.dir", 2), false)
 			case 2:
@@ -298,6 +298,29 @@ func TestC15Rollover(t *testing.T) {
 				d.pending = append(d.pending[:idx], d.pending[idx+1:]...)
 				deliver(x, false)
 				d.done = append(d.done, x)
+			case 5: // a run of regular frames sealed and delivered in order (long-lived traffic)
+				di := c.Pick("burst.dir", 2)
+				d := dirs[di]
+				k := c.Int("burst.n", 20, 300)
+				if last := int(d.lastSeq[0]); last < 250 && c.Bool("burst.to-250") {
+					k = 250 - last + c.Int("burst.off", -4, 4)
+				}
+				for len(d.pending) > 0 {
+					x := d.pending[0]
+					d.pending = d.pending[1:]
+					deliver(x, false)
+					d.done = append(d.done, x)
+				}
+				for j := 0; j < k; j++ {
+					seal(di, false)
+					x := d.pending[0]
+					d.pending = d.pending[1:]
+					deliver(x, false)
+					if j >= k-3 {
+						d.done = append(d.done, x)
+					}
+				}
+				c.Class("history-with-a-long-run")
 			case 4: // re-present an already delivered frame
 				di := c.Pick("re.dir", 2)
 				d := dirs[di]
